@@ -1248,6 +1248,31 @@ def _fine_refinement(rep, tier, wd):
     rep.cov["parts"].setdefault("selftests_fine", []).append("RWLockFine with the counter test after the mutex release does not refine RWLock (TLC refutes)")
 
 
+def _inductive(rep, tier, wd):
+    """Unbounded in steps and passes: an inductive invariant of the lock model (spec/RWLockInd.tla, RWLockInd.md) checked with
+    Apalache - Init => IndInv, IndInv /\\ Next => IndInv', IndInv => Mutex /\\ ReleaseHeld /\\ NoDeadlock /\\ CountersOK - for fixed
+    numbers of readers and writers; TLC binds the Apalache-typed restatement to RWLock.tla; broken variants must be refuted."""
+    from .. import apalache
+    import shutil
+    if os.environ.get("VERIF_ENVPASS"):
+        return                                  # (a statement about the model: nothing to repeat in the second interpreter mode)
+    if not shutil.which("apalache-mc"):
+        rep.cov["parts"]["RWLockInd (Apalache)"] = "apalache-mc not installed: skipped"
+        return
+    insts = [(2, 2, True)] if tier == "quick" else [(2, 2, True), (3, 3, False), (4, 4, False)]
+    for R, W, binding in insts:
+        res = apalache.check_rwlock_inductive(os.path.join(wd, "apalache_%d%d" % (R, W)), R, W, timeout=900, binding=binding)
+        if not res.get("refuted_selftest") and not rep.violations:
+            raise MachineryError("Apalache self-test: a broken lock variant was not refuted (R=%d W=%d)" % (R, W))
+        rep.cov["parts"]["RWLockInd (Apalache) R=%d W=%d" % (R, W)] = {
+            "kind": "inductive invariant (any number of steps and passes) + TLC binding of the restatement" if binding else "inductive invariant (any number of steps and passes)",
+            "ok": res["ok"], "steps": [{k: v for k, v in st.items() if k in ("name", "rc", "seconds", "outcome", "states")} for st in res["steps"]]}
+        if not res["ok"]:
+            bad = [st for st in res["steps"] if st.get("outcome") not in (None, "NoError") and not st["name"].startswith("selftest")]
+            rep.violation("C20:rwlock-inductive-%s" % (bad[0]["name"] if bad else "step"),
+                          "the inductive invariant of the lock model is refuted by Apalache (R=%d W=%d)" % (R, W), {"steps": res["steps"]})
+
+
 def run(tier):
     rep = Report("C20", tier)
     with Scratch("c20") as wd:
@@ -1255,6 +1280,7 @@ def run(tier):
         edges = _rwlock_part(rep, tier, wd, J)
         nev = _lazy_part(rep, tier, wd, J)
         _fine_refinement(rep, tier, wd)
+        _inductive(rep, tier, wd)
     rep.cov["exhaustive"] = True
     rep.cov["explanation"] = ("RWLock: complete state graphs of the bounded instances, every edge replayed on the real lock (%d edges); "
                               "lazy table / rescaling / table of a Jacobian-form generator: thread A stopped at the lines (tiny curve and scale(): "
@@ -1266,6 +1292,7 @@ def run(tier):
         "CPython switches threads only between byte codes (GIL); NIST256p table: line-level pre-emption (callee lines sampled) in the quick tier, all callee lines and byte-code level in the thorough tier",
         "thread A is pre-empted inside _maybe_precompute()/scale() and everything below them in the ecdsa package; pre-emption of A inside other entry points (x(), y(), __eq__, mul_add) is not enumerated",
         "pre-emption inside the lock code only at lock calls: the light-switch counters are accessed only while the switch mutex is held (checked: counter values are compared after every step)",
+        "model, unbounded in steps and passes: inductive invariant checked by Apalache for 2+2 (quick) and 3+3, 4+4 (thorough) readers + writers",
         "bounded instances: up to 3 readers + 2 writers x 2 passes / 3+3 x 1 (model); walk on the real lock: 2+2 x 1 and 2+1 x 2 (quick), also 2+2 x 2, 3+2 x 1, 2+3 x 1, 3+3 x 1 (thorough)",
         "thread B's operations are complete (not themselves pre-empted); two concurrent builders are covered only as 'B builds its own table while A is stopped'",
     ]
